@@ -196,11 +196,11 @@ def build(tier):
         obs.append(vf.Ob("offsets_len%d" % n, "C23", complete=False, bound=b, what="calculate_line_offsets == the protocol's line starts (LF, CRLF, CR)"))
         obs.append(vf.Ob("index_len%d" % n, "C23", complete=False, bound=b + "; every position with line < 8 and character < 8 (beyond the text both clamp)",
                          what="position_to_index == byte offset of the UTF-16 position, clamped to the line end; always a char boundary"))
-        groups = [(0, len(ds))] if n == 1 else [(i, i + 1) for i in range(len(ds))]
+        groups = [(i, i + 1) for i in range(len(ds))]
         for (lo, hi) in groups:
-            nm = "apply_len%d" % n if n == 1 else "apply_len%d_d%d" % (n, lo)
+            nm = "apply_len%d_d%d" % (n, lo)
             hs.append("    #[kani::proof] #[kani::unwind(%d)] #[kani::stub(std::string::String::replace_range, replace_range_stub)] fn %s() { apply_docs_len%d(%d, %d) }" % (len(ds) + 12, nm, n, lo, hi))
-            bb = b if n == 1 else "the document %r (%d bytes)" % (bytes(ds[lo]).decode(), n)
+            bb = "the document %r (%d bytes)" % (bytes(ds[lo]).decode(), n)
             obs.append(vf.Ob(nm, "C23", complete=False, bound=bb + "; every range of two positions with line < 8 and character < 8",
                              what="apply_change: Ok => exactly one replace_range(spec_index(start)..spec_index(end)) on char boundaries, version+1; Err <=> start after end, document untouched; no panic"))
     hs.append(r'''
@@ -219,7 +219,7 @@ def build(tier):
     for k in fr:
         src = src.replace("@%s@" % k, fr[k]["text"])
     src = src.replace("@HARNESSES@", "\n".join(hs))
-    u = vf.KaniUnit("c23_document", {"src/lib.rs": src}, obs, timeout_s=1500 if tier == "quick" else 6000, jobs=6, auto_files=[DF])
+    u = vf.KaniUnit("c23_document", {"src/lib.rs": src}, obs, timeout_s=2400 if tier == "quick" else 6000, jobs=6, auto_files=[DF])
     u.fragments = [vf.frag_record(fr[k]) for k in fr]
     u.rewrites = [{"rule": "R0", "before": "TextDocument, apply_change, validate_range, position_to_index, calculate_line_offsets", "after": "verbatim", "times": 5}]
     u.assumptions = [
